@@ -339,6 +339,14 @@ def deliver(world, t, chunk):
     t.deliver(chunk)
 
 
+def deliver_burst(world, t, chunks):
+    """Several reads in a row with nothing in between (Twisted: simply consecutive dataReceived calls)."""
+    for c in chunks:
+        if not t.can_read():
+            break
+        t.deliver(c)
+
+
 def peer_fin(world, t):
     t.peer_fin()
 
